@@ -446,7 +446,13 @@ pub fn c03_visit_depth(ctx: &StateCtx, acc: &mut Acc, nest: u32) {
 pub fn c04_visit(ctx: &StateCtx, acc: &mut Acc) {
     let want = keys().hash(ctx.pos);
     let model_legal = ctx.pos.legal();
-    for (how, mut g) in games(ctx, acc, false) {
+    // the reached game is built both ways: with push (what a search does) and with push_history (what the `position`
+    // command and self-play do: it also runs the phase update, which re-scores the kings through set_position)
+    let mut all = games(ctx, acc, false);
+    if ctx.root.is_some() && !ctx.path.is_empty() {
+        all.extend(games(ctx, acc, true).into_iter().filter(|(how, _)| *how == "reached").map(|(_, g)| ("reached by push_history", g)));
+    }
+    for (how, mut g) in all {
         acc.evaluations += 1;
         acc.outcome(format!("{} game, side={}, rights={}, ep={}", how, if ctx.pos.white { 'w' } else { 'b' }, ctx.pos.rights_field(), ctx.pos.engine_ep_file()));
         if g.hash() != want {
